@@ -251,6 +251,11 @@ def run(ctx):
                 if n.get("k") == "Binary" and n.get("op") in ("Eq", "Ne") and any(peel(n.get(x)).get("k") == "Lit" and peel(n.get(x)).get("str") == "/health" for x in ("a", "b")):
                     exact += 1
             okh = len(oks) == 1 and len(in_allowed) == 1 and exact >= 1 and len(health) == exact
+            # ... and what is compared is the request's PATH: a target with a query (`/health?probe=readiness`) or in
+            # absolute form still has the path /health
+            wider = [n.get("name") for n in deep(allowed_region) if n.get("k") == "MethodCall" and n.get("name") in ("path_and_query", "query", "to_string") and "http::uri" in (n.get("def") or n.get("resolved") or "")]
+            if okh and wider:
+                okh = False
             chk.ob("C18.a", f"{hh.path} [/health]", okh, "/health -> OK, only for allowed peers; any other path -> render" if okh else "/health is not answered `OK` under the allowlist gate", hh.loc())
             # "a rendering of the metrics at that time": every value the non-/health answer can take is the result of the
             # render() made for this very request (not a copy kept from an earlier one)
